@@ -286,7 +286,12 @@ func areUnknownAttributesAdded(content []byte) []string {
 	// Ignoring error because we already successfully unmarshalled before this
 	// point
 	_ = json.Unmarshal(content, &targetArtifactMap)
-	descriptor := targetArtifactMap["targetArtifact"].(map[string]interface{})
+	descriptor, ok := targetArtifactMap["targetArtifact"].(map[string]interface{})
+	if !ok {
+		// the payload does not carry a "targetArtifact" object under its exact
+		// name, report every top-level key as unknown
+		return getKeySet(targetArtifactMap)
+	}
 
 	// Explicitly remove expected keys to check if any are left over
 	delete(descriptor, "mediaType")
